@@ -27,6 +27,9 @@ def main(tier, replay=None):
                 % (5 if tier == "quick" else 7))
     if not _r.ok:
         raise common.MachineryError("MC_Compiler violated: %s" % _r.violated)
+    # direction spec -> code: the same complete space (one declaration less), every program replayed into the parser
+    from . import smallscope as _ss
+    _ss.run(rep, tier, ("resolves-elsewhere", "rejected-a-valid-schema", "accepted-an-invalid-schema"))
     n = 1500 if tier == "quick" else 40000
     traces, progs = [], []
     with common.Scratch("c11") as scratch:
